@@ -29,5 +29,7 @@ for root, _dirs, files in os.walk(os.path.join(repo, "dissect", "hypervisor")):
                         out[key] = alpha.describe(n)
 
         walk(tree.body, [])
+        for cname, d in alpha.describe_classes(tree).items():
+            out[f"{rel}::{cname}"] = d
 json.dump(out, open(alpha.BASELINE, "w"), indent=0, sort_keys=True)
 print(f"{len(out)} functions -> {alpha.BASELINE}")
